@@ -15,9 +15,15 @@
 (* going on: it retries whenever it may.                                                          *)
 (* Switches: ResetPerAttempt = FALSE (per-attempt state not reset) and BreakerOutside = FALSE     *)
 (* (breaker wrapped inside the retry loop) are negative controls that TLC must reject.            *)
+(*   handler: the time-out context is derived from the context the handler is called with, which  *)
+(*   may carry a deadline of the client's own: context.WithTimeout keeps the earlier of the two.    *)
+(*   doHandle: a transport error with ctx.Err() == DeadlineExceeded is timeout/408 - also when it   *)
+(*   was the client's deadline that expired (sc.cdl = "earlier", script entry "cdl").                *)
+(* TimerAlways = FALSE (the pool time-out is armed only if the context has no deadline yet: the     *)
+(* attempt then waits for a backend that does not answer) is a third negative control.              *)
 EXTENDS Resilience
 
-CONSTANTS ResetPerAttempt, BreakerOutside
+CONSTANTS ResetPerAttempt, BreakerOutside, TimerAlways
 
 VARIABLES resp,     \* status of the backend response held in spCtx.resp (0 = nil)
           brk       \* results recorded by the breaker so far
@@ -34,8 +40,18 @@ IAttempt(w) ==
     /\ resp' = IF ResetPerAttempt THEN 0 ELSE resp
     /\ UNCHANGED brk
 
+Hung == [res |-> "hung", st |-> 0, fail |-> TRUE, b |-> FALSE]
+Unbounded == pc = "attempt" /\ KindOf(n) = "hang" /\ ~TimerAlways /\ sc.cdl # "none"
+
+(* what doHandle makes of an outcome: the client's deadline is a DeadlineExceeded like the pool's *)
+Code(o) == IF o.res = "deadline" THEN [o EXCEPT !.res = "timeout", !.st = 408] ELSE o
+
 IReturn ==
-    /\ Return
+    /\ IF Unbounded                                              \* (negative control only)
+       THEN /\ pc = "attempt" /\ outs' = Append(outs, Hung) /\ pc' = "waiting"
+            /\ last' = [a |-> "ret", i |-> n, k |-> "hung"]
+            /\ UNCHANGED <<sc, n, recs, final, cancelled>>
+       ELSE Return
     /\ LET o == Classify(KindOf(n)) IN
        /\ resp' = IF o.b THEN o.st ELSE resp                        \* buildResponse only when a response arrived
        /\ brk' = IF ~BreakerOutside /\ sc.cb = "closed" THEN brk + 1 ELSE brk
@@ -48,7 +64,7 @@ IFinish ==
     /\ pc' = "done"
     /\ IF pc = "open"
        THEN final' = ShortCircuited /\ brk' = brk
-       ELSE LET o == outs[n] IN
+       ELSE LET o == Code(outs[n]) IN
             /\ final' = IF ~o.fail THEN [res |-> "", st |-> resp, fail |-> FALSE, b |-> TRUE]
                         ELSE [res |-> o.res, st |-> (IF resp = 0 THEN o.st ELSE resp), fail |-> TRUE, b |-> (resp # 0)]
             /\ brk' = IF BreakerOutside /\ sc.cb = "closed" THEN brk + 1 ELSE brk
